@@ -3,6 +3,10 @@
 ;; generated libraries print "BODY <lib>" lines themselves (same port), so the number of evaluations of
 ;; each body is visible in the transcript.
 ;;   (env id (iset ...) (name ...))   (apply environment isets), then probe every name in order
+;;   (envsc id (iset ...) (name ...) (template ...))
+;;                                    round 2: the same, but every name is probed INSIDE the user-code position of exported
+;;                                    sc/er macros of the generated libraries: each template is a macro use such as
+;;                                    (p:wif 1 (erw 1 <>)); <> is replaced by (name), then name.  One result list per template.
 ;;   [top-level (import ...) programs are separate processes: props/C14.py pastes the PROBE section below
 ;;    into a generated program whose first form is (import (scheme base) ... <import sets>)]
 ;;   (frames id (iset ...))           (apply environment isets), then (env-exports frame) of each frame down the
@@ -38,6 +42,21 @@
 (define (c14-probe env names)
   (map (lambda (n) (c14-probe1 env n)) names))
 
+(define (c14-subst t x)
+  (cond ((eq? t '<>) x)
+        ((pair? t) (cons (c14-subst (car t) x) (c14-subst (cdr t) x)))
+        (else t)))
+
+(define (c14-probe1c env t n)
+  (let ((w (guard (e (#t 'unbound)) (eval (c14-subst t (list n)) env))))
+    (if (c14-tagged? w)
+        w
+        (let ((v (guard (e (#t 'unbound)) (eval (c14-subst t n) env))))
+          (if (c14-tagged? v) v 'unbound)))))
+
+(define (c14-probe-closed env templates names)
+  (map (lambda (t) (map (lambda (n) (c14-probe1c env t n)) names)) templates))
+
 (define (c14-out id x)
   (write-string "CASE ")
   (write id)
@@ -54,6 +73,10 @@
        (let ((env (guard (e (#t (list 'IMPORT-ERROR (c14-msg e))))
                     (apply environment (car (cddr form))))))
          (c14-out id (if (pair? env) env (c14-probe env (cadr (cddr form)))))))
+      ((envsc)
+       (let ((env (guard (e (#t (list 'IMPORT-ERROR (c14-msg e))))
+                    (apply environment (car (cddr form))))))
+         (c14-out id (if (pair? env) env (c14-probe-closed env (car (cddr (cddr form))) (cadr (cddr form)))))))
       ((frames)
        (c14-out id (guard (e (#t (list 'IMPORT-ERROR (c14-msg e))))
                      (let ((n (+ 1 (* 2 (length (car (cddr form)))))))
